@@ -159,7 +159,8 @@ class RTDC_HDF5(RTDCBase):
 
         config = Configuration()
         for key in h5attrs:
-            section, pname = key.split(":")
+            # (user-defined keys may contain colons)
+            section, pname = key.split(":", 1)
             config[section][pname] = h5attrs[key]
         return config
 
